@@ -109,10 +109,10 @@ class Batch:
         p = subprocess.run(["gofmt", "-l", "gen"], cwd=self.dir, stdout=subprocess.PIPE, stderr=subprocess.STDOUT, text=True)
         return [l.split("/")[1] for l in p.stdout.splitlines() if l.endswith("container.go")]
 
-    def run_main(self, name, args=(), race=False, timeout=600, env_extra=None):
+    def run_main(self, name, args=(), race=False, timeout=600, env_extra=None, tags=None):
         """go run of one generated package main (the package must have a main func)"""
         binp = os.path.join(self.dir, "bin_" + name)
-        cmd = ["go", "build"] + (["-race"] if race else []) + ["-o", binp, "./gen/" + name]
+        cmd = ["go", "build"] + (["-race"] if race else []) + (["-tags", tags] if tags else []) + ["-o", binp, "./gen/" + name]
         env = dict(GOENV)
         if race:
             env["CGO_ENABLED"] = "1"
